@@ -9,6 +9,7 @@ from dateutil.relativedelta import relativedelta
 from hypothesis import strategies as st
 
 import pendulum
+from pendulum.duration import AbsoluteDuration
 from pendulum import Date, DateTime
 from vf import env
 from vf import oracle_tz as T
@@ -75,9 +76,11 @@ def has_var(a):
 @st.composite
 def start_wall(draw, zone):
     """wall value biased to month ends, leap days and transition days"""
-    k = draw(st.integers(0, 3))
+    k = draw(st.integers(0, 4))
     if k == 0 and zone and T.transitions(zone):
         return draw(S.wall_near_transition(zone))
+    if k == 4:
+        return S.clamp_u(draw(S.calendar_edge_wall()))
     y = draw(st.one_of(st.sampled_from([4, 100, 400, 1583, 1900, 2000, 2023, 2024, 9996]), st.integers(4, 9996)))
     m = draw(st.integers(1, 12))
     dim = calendar.monthrange(y, m)[1]
@@ -209,6 +212,13 @@ def dur_case(draw):
     return {"zone": z, "w": w, "amt": a, "canonical": canon, "prov": draw(st.sampled_from(["construct", "convert", "convert-add"]))}
 
 
+def outcome_str(f):
+    try:
+        return f().isoformat()
+    except Exception as e:  # noqa: BLE001 - only used to describe a failure
+        return type(e).__name__
+
+
 class DurationOps(Sub):
     ambient = True
     name = "duration_operators"
@@ -252,6 +262,17 @@ class DurationOps(Sub):
         req(sig(x + d_ms) == sig(r_add) and sig(d_ms + x) == sig(r_add), "dt + d differs from dt.add() when d was built with milliseconds=", got=(x + d_ms).isoformat(),
             add=r_add.isoformat(), amt=a)
         req(sig(x - d_ms) == sig(x - d), "dt - d depends on whether d was built with milliseconds= or microseconds=", ms=(x - d_ms).isoformat(), us=(x - d).isoformat(), amt=a)
+        # an AbsoluteDuration (what Time.diff() and abs-type differences hand back) is a Duration too: it shifts by its own (absolute) components
+        ad = AbsoluteDuration(**a)
+        compa = {"years": ad.years, "months": ad.months, "weeks": ad.weeks, "days": ad.remaining_days, "hours": ad.hours, "minutes": ad.minutes,
+                 "seconds": ad.remaining_seconds, "microseconds": ad.microseconds}
+        try:
+            ea, es = x.add(**compa), x.subtract(**compa)
+        except (OverflowError, ValueError):
+            ea = es = None
+        if ea is not None and 3 < ea.year < 9997 and 3 < es.year < 9997:
+            req(sig(x + ad) == sig(ea) and sig(ad + x) == sig(ea), "dt + AbsoluteDuration differs from dt.add() with its components", got=outcome_str(lambda: x + ad), add=ea.isoformat(), amt=a)
+            req(sig(x - ad) == sig(es), "dt - AbsoluteDuration differs from dt.subtract() with its components", got=outcome_str(lambda: x - ad), subtract=es.isoformat(), amt=a)
         lab = "denormalised"
         if case["canonical"]:
             lab = "canonical"
@@ -378,4 +399,59 @@ class MonthTable(Sub):
         return d > 28 or abs(case["months"]) > 12, "clamp-candidate" if d > 28 else "plain"
 
 
-SUBS = [DateTimeArith(), DurationOps(), DateArith(), MonthTable()]
+class EveryYearFebruary(Sub):
+    name = "every_year_february"
+    kind = "enum"
+    ambient = True
+    n = {"quick": 0, "thorough": 0}
+    shards = {"quick": 4, "thorough": 8}
+    distinct_by_construction = True
+    rule = ("EVERY year 2..9998: the shifts that land on or leave the end of February (Jan 29/30/31 + 1 month, Mar 29/31 - 1 month, Feb 28/29 +- 1/4/100/400 years, "
+            "Feb 28 + 1 day, Mar 1 - 1 day, Feb 29 +- 0 with a time unit) on Date, naive and UTC DateTime, through add/subtract and the Duration operators: any wrong "
+            "leap rule (a century, a multiple of 400 or 4000, a Julian cut-over) in either helper backend shows; all cases non-trivial")
+
+    def exhaustive(self, tier):
+        return True
+
+    def cases(self, ctx, shard, nshards):
+        for y in range(2, 9999):
+            if y % nshards == shard:
+                yield {"y": y}
+
+    def check(self, case, ctx):
+        y = case["y"]
+        feb = calendar.monthrange(y, 2)[1]
+        starts = [(1, 29), (1, 30), (1, 31), (3, 29), (3, 31), (2, 28), (2, feb), (3, 1), (12, 31)]
+        shifts = [{"months": 1}, {"months": -1}, {"years": 1}, {"years": -1}, {"years": 4}, {"years": -4}, {"years": 100}, {"years": -400}, {"days": 1}, {"days": -1},
+                  {"months": 12, "days": 1}, {"hours": 1}, {"weeks": 1, "days": -7, "hours": 24}]
+        n = 0
+        for m, d in starts:
+            wall = D.datetime(y, m, d, 13, 14, 15, 16)
+            for a in shifts:
+                try:
+                    mw = model(wall, a)
+                except OverflowError:
+                    continue
+                if not 2 <= mw.year <= 9998:
+                    continue
+                n += 1
+                if not any(k in a for k in ("hours",)):
+                    r = pendulum.date(y, m, d).add(**a)
+                    req(type(r) is Date and (r.year, r.month, r.day) == (mw.year, mw.month, mw.day), "Date.add differs from the calendar model", start=str(wall.date()), amt=a,
+                        got=str(r), expected=str(mw.date()))
+                    r = pendulum.date(y, m, d) + pendulum.duration(**a)
+                    req((r.year, r.month, r.day) == (mw.year, mw.month, mw.day), "Date + Duration differs from the calendar model", start=str(wall.date()), amt=a, got=str(r))
+                for nm, x in (("naive", pendulum.naive(*T.fields(wall))), ("UTC", pendulum.datetime(*T.fields(wall)))):
+                    r = x.add(**a)
+                    req(T.fields(r) == T.fields(mw), f"{nm} DateTime.add differs from the calendar model", start=wall.isoformat(), amt=a, got=r.isoformat(), expected=mw.isoformat())
+                    r = x.subtract(**neg(a))
+                    req(T.fields(r) == T.fields(mw), f"{nm} DateTime.subtract(negated) differs from the calendar model", start=wall.isoformat(), amt=a, got=r.isoformat(),
+                        expected=mw.isoformat())
+                    r = x + pendulum.duration(**a)
+                    req(T.fields(r) == T.fields(mw), f"{nm} DateTime + Duration differs from the calendar model", start=wall.isoformat(), amt=a, got=r.isoformat(), expected=mw.isoformat())
+        ctx.cache["n"] = ctx.cache.get("n", 0) + n
+        ctx.cache["evidence_extra"] = {"inner_evaluations": ctx.cache["n"], "inner_nontrivial": ctx.cache["n"]}
+        return True, "leap" if feb == 29 else "common"
+
+
+SUBS = [DateTimeArith(), DurationOps(), DateArith(), MonthTable(), EveryYearFebruary()]
